@@ -2,6 +2,8 @@
  *  SHIM_SHORT=half|one   every write() of more than one byte to an fd >= 3 really
  *                        writes only a prefix (half of it / one byte less) and
  *                        returns that count (a legal short write).
+ *  SHIM_PWRITE=<n>       (LD_PRELOAD mode only) every pwrite() writes at most n bytes
+ *                        and returns that count.
  *  SHIM_READDIR=<perm>   readdir() on directories returns entries in an order
  *                        derived from the given integer (reverse / rotate / sort)
  *                        so that both "metadata first" and "data first"
@@ -115,3 +117,26 @@ closedir(DIR *dir)
 			ds[i].dir = NULL;
 	return real_closedir(dir);
 }
+
+#ifndef SHIM_WRAP
+ssize_t
+pwrite(int fd, const void *buf, size_t n, off_t off)
+{
+	static ssize_t (*real_pwrite)(int, const void *, size_t, off_t);
+	if (!real_pwrite)
+		real_pwrite = (ssize_t(*)(int, const void *, size_t, off_t)) dlsym(RTLD_NEXT, "pwrite");
+	const char *m = getenv("SHIM_PWRITE");
+	if (m != NULL && fd >= 3) {
+		size_t cap = (size_t) atol(m);
+		if (cap > 0 && n > cap)
+			n = cap;
+	}
+	return real_pwrite(fd, buf, n, off);
+}
+
+ssize_t
+pwrite64(int fd, const void *buf, size_t n, off_t off)
+{
+	return pwrite(fd, buf, n, off);
+}
+#endif
